@@ -6,4 +6,4 @@ SRC="$1"; NAME="$2"; shift 2
 DST=/verif/seeded/$NAME; mkdir -p $DST
 cp "$SRC"/patch.diff "$SRC"/README.md $DST/ 2>/dev/null; cp "$SRC"/*.rs "$SRC"/*.sh $DST/ 2>/dev/null
 /verif/tools/verify_seed.sh $DST > $DST/verify.txt 2>&1; tail -1 $DST/verify.txt
-LINES_MAX=8 /verif/tools/mutant_run.sh $DST/patch.diff "$@" > $DST/checks.txt 2>&1; cat $DST/checks.txt | cut -c1-200
+LINES_MAX=8 MUT_ID=${SEEDV_ID:-} /verif/tools/mutant_run.sh $DST/patch.diff "$@" > $DST/checks.txt 2>&1; cat $DST/checks.txt | cut -c1-200
